@@ -249,8 +249,7 @@ class CoordinateReference(
                     name=None,
                     namespace=namespace0,
                     indent=0,
-                    string=False,
-                    header=header,
+                    string=True,
                 )
             else:
                 if isinstance(value, (np.generic, np.ndarray)):
@@ -268,8 +267,7 @@ class CoordinateReference(
                     name=None,
                     namespace=namespace0,
                     indent=0,
-                    string=False,
-                    header=header,
+                    string=True,
                 )
             else:
                 if isinstance(value, (np.generic, np.ndarray)):
